@@ -116,6 +116,13 @@ func (p *planner) next(r *runner) *Step {
 		return mut(Step{Op: "assign", I: zp([]int64{0, -2}[g.Intn(2)]), V: vp(val())})
 	}
 	if g.Chance(p.sortPct) {
+		if g.Chance(8) && n >= 3 {
+			c := &Cmp{Kind: "lt"}
+			if g.Bool() {
+				c = &Cmp{Kind: "const", B: true}
+			}
+			return &Step{Op: "sortmut", I: zp(int64(g.Range(1, 6))), Cmp: c}
+		}
 		return mut(Step{Op: "sort", Cmp: genCmp(g, p.flavour)})
 	}
 	if g.Chance(5) {
@@ -142,6 +149,9 @@ func (p *planner) next(r *runner) *Step {
 	case 1:
 		return mut(Step{Op: "ins3", I: zp(int64(g.Range(1, int(n)+1))), V: vp(val())})
 	case 2:
+		if g.Chance(30) {
+			return mut(Step{Op: "remnil"})
+		}
 		return mut(Step{Op: "rem1"})
 	case 3:
 		if n == 0 {
@@ -165,6 +175,9 @@ func (p *planner) next(r *runner) *Step {
 		return mut(Step{Op: "assign", I: zp(n), V: vp(tv.Nil())})
 	case 7:
 		s := Step{Op: "concat", Sep: hex.EncodeToString([]byte([]string{"", ",", ", ", "\x00"}[g.Intn(4)]))}
+		if g.Chance(15) {
+			s.SepNum = zp(int64(g.Range(-2, 12)))
+		}
 		switch g.Pick(30, 25, 45) {
 		case 1:
 			s.I = zp(int64(g.Range(1, int(n)+1)))
@@ -221,6 +234,15 @@ func generate(w *lib.Writer, r *lib.Rand, tier string) {
 			p.offPct = 4
 		}
 		in := &Input{}
+		if i%250 == 7 {
+			// a long list (beyond any fixed-size buffer): fill, concat, unpack of a window, remove, concat
+			class = "long"
+			k := int64(g.Range(2600, 3400))
+			steps := []Step{{Op: "fill", N: k, V: vp(genVal(g, p.flavour%3))}, {Op: "len"}, {Op: "concat", Sep: "2c"},
+				{Op: "unpack", I: zp(k - 2), J: zp(k + 1)}, {Op: "rem1"}, {Op: "concat", Sep: "", I: zp(k - 5)}, {Op: "getn"}, {Op: "maxn"}}
+			runCase(w, &Input{Steps: steps}, class, nil)
+			continue
+		}
 		cl := class
 		runCase(w, in, cl, func(rr *runner) *Step {
 			s := p.next(rr)
